@@ -99,7 +99,7 @@ def fr(x):
     return Fraction(x) if not isinstance(x, float) else Fraction(*x.as_integer_ratio())
 
 
-DTYPES = {'float': float, 'int': int, 'bool': bool, 'uint8': np.uint8, 'int32': np.int32}
+DTYPES = {'float': float, 'int': int, 'bool': bool, 'uint8': np.uint8, 'int32': np.int32, 'int8': np.int8}
 
 
 def mask_np(c):
@@ -210,7 +210,9 @@ def prep(c):
         rho_arg, rho, theta = None, None, None      # a lone theta is dropped: default coordinates
     p = {'mask': mask, 'rho': rho, 'theta': theta, 'nrm': nrm, 'rho_arg': rho_arg, 'theta_arg': theta_arg,
          'mask_arg': container(layout(mask, forms.get('mask_layout')), forms.get('mask_container')),
-         'modes_arg': modes_form(c['modes'], forms.get('modes_form'))}
+         'modes_arg': modes_form(c['modes'], forms.get('modes_form')),
+         # truthy-but-not-True flags: np.bool_, 1 / 0
+         'nrm_arg': {'np_bool': np.bool_(nrm), 'int': int(nrm)}.get(forms.get('nrm_form'), nrm)}
     w = [float(x * scale) for x in scatter(c['modes'], c['coeffs'], c.get('extra'))]
     if c['op'] == 'compose':
         p['w'] = w
@@ -254,8 +256,39 @@ def layout(a, kind):
     return a
 
 
+class MetaArray(np.ndarray):
+    """an ndarray subclass that carries metadata (like astropy / xarray style wrappers)"""
+    def __array_finalize__(self, obj):
+        self.info = getattr(obj, 'info', 'metadata')
+
+
+_keep_alive = []
+
+
 def container(a, kind):
-    return a.tolist() if kind == 'list' else a
+    """the same values in another array_like: nested list, or an ndarray SUBCLASS (the public functions convert with
+    np.asarray, so the plain data must be used: a MaskedArray's mask is not part of the OPD / aperture)"""
+    if kind == 'list':
+        return a.tolist()
+    if kind == 'masked':
+        return np.ma.MaskedArray(a)
+    if kind == 'masked_some':
+        ii, jj = np.mgrid[0:a.shape[0], 0:a.shape[1]]
+        return np.ma.MaskedArray(a, mask=((ii + 2 * jj) % 5 == 0))
+    if kind == 'matrix':
+        return np.matrix(a)
+    if kind == 'subclass':
+        return np.array(a).view(MetaArray)
+    if kind == 'memmap':
+        import tempfile
+        f = tempfile.TemporaryFile(dir='/var/tmp')
+        _keep_alive.append(f)
+        if len(_keep_alive) > 64:
+            _keep_alive.pop(0).close()
+        mm = np.memmap(f, dtype=a.dtype, mode='w+', shape=a.shape)
+        mm[...] = a
+        return mm
+    return a
 
 
 def modes_form(modes, kind):
@@ -428,7 +461,10 @@ def gen_mask(rng, size):
             lo, hi = (6, 9) if size == 'small' else (10, 16)
             n, m = rng.randint(lo, hi), rng.randint(lo, hi)
             kind = rng.choice(['circle', 'circle_off', 'hexagon', 'hexagon', 'hexseg', 'segment', 'twocircles',
-                               'weighted', 'circle_off', 'labels'])
+                               'weighted', 'circle_off', 'labels', 'signed', 'signed'])
+        signed = kind == 'signed'      # signed weights: every NON-ZERO entry belongs to the aperture, whatever its sign
+        if signed:
+            kind = rng.choice(['circle', 'circle_off', 'hexagon'])
         labels = kind == 'labels'      # integer segment labels (0 = outside, 1.. / 2, 3 = segment number)
         if labels:
             kind = rng.choice(['hexseg', 'twocircles'])
@@ -463,6 +499,24 @@ def gen_mask(rng, size):
             a = lentil.circle((n, m), min(n, m) / 2 - 1, antialias=True)
             a = np.where(a > 0, np.round(a * 4) / 4 + (a > 0) * 0.25, 0.0) * rng.choice([1, 2])
         a = np.asarray(a, dtype=float)
+        if signed:
+            a = (a != 0) * np.array([[rng.choice([-2, -1, -1, 1, 1, 2, 0.5, -0.5]) for _ in range(a.shape[1])]
+                                     for _ in range(a.shape[0])])
+            rows = np.flatnonzero(np.any(a != 0, axis=1))
+            cols = np.flatnonzero(np.any(a != 0, axis=0))
+            if rows.size and rng.random() < 0.7:      # an outermost support row / column without any positive entry
+                for edge in rng.sample(['top', 'bottom', 'left', 'right'], rng.randint(1, 2)):
+                    if edge == 'top':
+                        a[rows[0]] = -np.abs(a[rows[0]])
+                    elif edge == 'bottom':
+                        a[rows[-1]] = -np.abs(a[rows[-1]])
+                    elif edge == 'left':
+                        a[:, cols[0]] = -np.abs(a[:, cols[0]])
+                    else:
+                        a[:, cols[-1]] = -np.abs(a[:, cols[-1]])
+            if rng.random() < 0.5:
+                a = np.sign(a) * np.ceil(np.abs(a))       # integer-valued variant
+            kind = 'signed-' + kind
         if np.count_nonzero(a) >= 6:
             vals = [[(int(v) if float(v).is_integer() else str(Fraction(float(v)))) for v in row] for row in a]
             return ('labels' if labels else kind), vals
@@ -631,6 +685,39 @@ def gen_big(rng):
     return c
 
 
+ILL_RANGE = (1e8, 1e12)
+
+
+def gen_illcond(rng):
+    """a linearly independent but ILL-conditioned mode set (1e8 <= cond <= 1e12) in a large array: a small off-axis
+    segment expressed in the coordinates of the parent aperture, many modes.  pinv (cutoff 1e-15) recovers the
+    coefficients to about eps*cond; anything that truncates singular values at a size-dependent threshold does not."""
+    for _ in range(12):
+        n, m = rng.choice([(512, 512), (384, 640), (600, 450), (256, 256), (700, 380)])
+        r = min(n, m)
+        rad = rng.choice([4.5, 5, 6, 7])
+        off = (int(r * rng.choice([0.2, 0.3, 0.35]) * rng.choice([-1, 1])), int(r * rng.choice([0.2, 0.3]) * rng.choice([-1, 1])))
+        k = rng.randint(14, 24)
+        modes = list(range(1, k + 1)) if rng.random() < 0.5 else rng.sample(range(1, 29), k)
+        nrm = rng.random() < 0.5
+        op = rng.choice(['compose', 'fit'])
+        c = {'op': op, 'mask_kind': 'illcond-segment', 'big': True, 'illcond': True,
+             'mask': {'shape': [n, m], 'discs': [[n // 2 + off[0], m // 2 + off[1], rad, 0]]},
+             'modes': modes, 'coeffs': [rnd_frac(rng) for _ in modes], 'nrm': nrm,
+             'crd': {'dr': '0', 'dc': '0', 'radius': str(Fraction(rng.randint(44, 50), 100) * r), 'rot': str(Fraction(rng.randint(-8, 8), 8))}}
+        if op == 'fit':
+            c['ynrm'] = nrm
+        try:
+            p = prep(c)
+            cond = float(np.linalg.cond(ref_modes(p, modes, nrm)))
+            cond1 = cond if nrm else float(np.linalg.cond(ref_modes(p, modes, True)))
+        except Exception:
+            return c
+        if ILL_RANGE[0] <= cond <= ILL_RANGE[1] and cond1 <= ILL_RANGE[1]:
+            return c
+    return None
+
+
 def generate(rng, tier):
     n_cases = 100 if tier == 'quick' else 1500
     _tier[0] = tier
@@ -638,6 +725,15 @@ def generate(rng, tier):
     tries = 0
     while out < n_cases and tries < 20 * n_cases:
         tries += 1
+        if out % (100 if tier == 'quick' else 75) == 20 and STATS.get('ill_pending') != out:
+            STATS['ill_pending'] = out
+            c = gen_illcond(rng)
+            if c is not None:
+                out += 1
+                STATS['generated'] += 1
+                STATS['illconditioned_oracle_only'] = STATS.get('illconditioned_oracle_only', 0) + 1
+                yield c
+            continue
         if out % (25 if tier == 'quick' else 30) == 10 and STATS.get('big_pending') != out:
             STATS['big_pending'] = out          # one attempt per slot
             c = gen_big(rng)
@@ -670,6 +766,8 @@ def generate(rng, tier):
         if all(isinstance(v, int) for row in mask for v in row):
             # the mask as integer / boolean / uint8 array: "all nonzero entries are included" whatever the dtype
             c['mask_dtype'] = rng.choice(['float', 'float', 'int', 'bool', 'uint8', 'int32'])
+            if any(v < 0 for row in mask for v in row):
+                c['mask_dtype'] = rng.choice(['float', 'int', 'int32', 'int8'])
         if op != 'remove':
             c['nrm'] = rng.random() < 0.5
         if rng.random() < 0.4:
@@ -702,17 +800,19 @@ def generate(rng, tier):
                 forms['mask_layout'] = rng.choice(['F', 'strided', 'reversed'])
             if op != 'compose' and rng.random() < 0.5:
                 forms['opd_layout'] = rng.choice(['F', 'strided', 'reversed'])
-            if rng.random() < 0.25:
-                forms['mask_container'] = 'list'
-            if op != 'compose' and rng.random() < 0.25:
-                forms['opd_container'] = 'list'
+            if rng.random() < 0.35:
+                forms['mask_container'] = rng.choice(['list', 'masked', 'masked_some', 'matrix', 'subclass', 'memmap'])
+            if op != 'compose' and rng.random() < 0.35:
+                forms['opd_container'] = rng.choice(['list', 'masked', 'masked_some', 'matrix', 'subclass', 'memmap'])
+            if op != 'remove' and rng.random() < 0.3:
+                forms['nrm_form'] = rng.choice(['np_bool', 'int'])
             if rng.random() < 0.5:
                 forms['modes_form'] = rng.choice(['tuple', 'ndarray', 'int32', 'uint8']
                                                  + (['scalar', 'scalar0d', 'scalar'] if len(c['modes']) == 1 else []))
             if op == 'compose' and rng.random() < 0.5:
                 forms['coeffs_form'] = rng.choice(['tuple', 'ndarray'])
-            if op != 'compose' and not c.get('scale') and not c.get('opd_shape') and rng.random() < 0.3:
-                forms['opd_dtype'] = rng.choice(['float32', 'int'])
+            if op != 'compose' and not c.get('opd_shape') and rng.random() < 0.3:
+                forms['opd_dtype'] = rng.choice(['float32', 'int']) if not c.get('scale') else 'float32'
         if c.get('crd') and rng.random() < 0.12:
             forms['crd_form'] = rng.choice(['rho_only', 'theta_only'])
             if forms['crd_form'] == 'rho_only':
@@ -878,7 +978,8 @@ def run_impl_single(c):
     try:
         p = prep(c)
         # mask / modes / rho / theta: exactly the objects of the case's argument forms
-        mask, modes, rho, theta, nrm = p['mask_arg'], p['modes_arg'], p['rho_arg'], p['theta_arg'], p['nrm']
+        mask, modes, rho, theta, nrm = p['mask_arg'], p['modes_arg'], p['rho_arg'], p['theta_arg'], p['nrm_arg']
+        mask0 = np.array(np.asarray(mask), copy=True)
         outside = p['mask'] == 0
         if c['op'] == 'compose':
             opd = lentil.zernike_compose(mask, p['w_arg'], nrm, rho, theta)
@@ -897,13 +998,14 @@ def run_impl_single(c):
         if c['op'] == 'fit':
             cf = np.asarray(lentil.zernike_fit(ya, mask, modes, nrm, rho, theta), dtype=float)
             res = {'coeffs': cf}
-            if not c.get('opd_shape'):
+            if not c.get('opd_shape') and not c.get('illcond'):
                 y2 = np.fliplr(y) * 0.5 + s
                 res['fit_y2'] = np.asarray(lentil.zernike_fit(y2, mask, modes, nrm, rho, theta), dtype=float)
                 res['fit_comb'] = np.asarray(lentil.zernike_fit(3.0 * y + y2, mask, modes, nrm, rho, theta), dtype=float)
                 junk = y + outside * 7.25 * s
                 res['fit_junk'] = np.asarray(lentil.zernike_fit(junk, mask, modes, nrm, rho, theta), dtype=float)
-            res['input_changed'] = not np.array_equal(np.asarray(ya), y0)
+                res['fit_scaled'] = np.asarray(lentil.zernike_fit(y * HOM, mask, modes, nrm, rho, theta), dtype=float)
+            res['input_changed'] = not (np.array_equal(np.asarray(ya), y0) and np.array_equal(np.asarray(mask), mask0))
             return res
         if c['op'] == 'remove':
             r = np.asarray(lentil.zernike_remove(ya, mask, modes, rho=rho, theta=theta), dtype=float)
@@ -911,7 +1013,8 @@ def run_impl_single(c):
             res['fit_res'] = np.asarray(lentil.zernike_fit(r, mask, modes, True, rho, theta), dtype=float)
             res['again'] = np.asarray(lentil.zernike_remove(r, mask, modes, rho=rho, theta=theta), dtype=float)
             res['fit_y'] = np.asarray(lentil.zernike_fit(ya, mask, modes, True, rho, theta), dtype=float)
-            res['input_changed'] = not np.array_equal(np.asarray(ya), y0)
+            res['rem_scaled'] = np.asarray(lentil.zernike_remove(y * HOM, mask, modes, rho=rho, theta=theta), dtype=float)
+            res['input_changed'] = not (np.array_equal(np.asarray(ya), y0) and np.array_equal(np.asarray(mask), mask0))
             return res
     except Exception as e:
         # np.linalg.LinAlgError is a ValueError; the property does not pin the error class any further
@@ -1066,7 +1169,13 @@ def oracle(c, impl):
             m = close_each(impl['fit'], want, cond, f'fit(compose(c), modes={modes}) != c')
             if m:
                 return m
-            m = close(impl['removed'], np.zeros_like(opd), cs, f'remove(compose(c, modes), modes={modes}) != 0')
+            tol_r = TOL
+            if c.get('illcond'):
+                # an explicit pseudo-inverse is not backward stable: the re-composed fit carries eps * cond of the
+                # (normalised) basis that zernike_remove uses; same floor as for the coefficients
+                cond_r = cond if nrm else float(np.linalg.cond(stacked_modes(c, p, modes, True)))
+                tol_r = max(TOL, 1e-13 * max(cond, cond_r))
+            m = close(impl['removed'], np.zeros_like(opd), cs, f'remove(compose(c, modes), modes={modes}) != 0', tol_r)
             if m:
                 return m
         return None
@@ -1084,11 +1193,18 @@ def oracle(c, impl):
         if float(np.max(np.abs(ne))) > lim:
             return (f'zernike_fit does not return the least-squares solution: normal equations residual '
                     f'{float(np.max(np.abs(ne))):.3g} > {lim:.3g}')
+        if impl.get('input_changed'):
+            return 'zernike_fit modified the caller\'s opd or mask array'
         if pure(c) and c.get('ynrm', True) == nrm:
             m = close_each(cf, want, cond, f'fit(compose(c), modes={modes}) != c')
             if m:
                 return m
+        if c.get('illcond'):
+            return None      # ill-conditioned (cond >= 1e6) independent set: only the round trip is meaningful in floats
         sc = max(s, float(np.max(np.abs(cf))))
+        m = close(impl['fit_scaled'], HOM * cf, HOM * sc, f'fit is not homogeneous: fit({HOM} * y) != {HOM} * fit(y)')
+        if m:
+            return m
         f2 = np.asarray(impl['fit_y2'])
         m = close(impl['fit_comb'], 3.0 * cf + f2, 4 * sc + float(np.max(np.abs(f2))),
                   'fit is not linear: fit(3y + y2) != 3 fit(y) + fit(y2)')
@@ -1099,7 +1215,7 @@ def oracle(c, impl):
         r = np.asarray(unwrap(impl['arr']))
         fs = max(s, float(np.max(np.abs(impl['fit_y']))))
         if impl.get('input_changed'):
-            return 'zernike_remove modified its input'
+            return 'zernike_remove modified the caller\'s opd or mask array'
         if r.shape != y.shape:
             return f'residual shape {r.shape} != opd shape {y.shape}'
         if not np.array_equal(r[~inside], y[~inside]):
@@ -1108,6 +1224,9 @@ def oracle(c, impl):
         if m:
             return m
         m = close(impl['again'], r, s, 'remove is not idempotent')
+        if m:
+            return m
+        m = close(impl['rem_scaled'], HOM * r, HOM * s, f'remove is not homogeneous: remove({HOM} * y) != {HOM} * remove(y)')
         if m:
             return m
         comp = np.asarray(impl['fit_y']) @ B
